@@ -72,7 +72,7 @@ type walkVisitor struct {
 
 func (v walkVisitor) Visit(n dst.Node) dst.Visitor {
 	if n == nil {
-		v.l.out.Add(obj{"ev": "nil"})
+		v.l.out.Add(obj{"ev": "nil", "vis": v.depth})
 		return nil
 	}
 	v.l.k++
@@ -82,7 +82,7 @@ func (v walkVisitor) Visit(n dst.Node) dst.Visitor {
 		id = 0
 	}
 	keep := v.l.rule.Keep(v.l.k, n, v.depth)
-	v.l.out.Add(obj{"ev": "visit", "n": id, "keep": keep})
+	v.l.out.Add(obj{"ev": "visit", "n": id, "keep": keep, "vis": v.depth})
 	if !keep {
 		return nil
 	}
@@ -197,15 +197,15 @@ func c13Record(c *Ctx, f srcFile, r *rand.Rand) (*ndjson, int) {
 					depth := 0
 					dst.Inspect(df, func(n dst.Node) bool {
 						if n == nil {
+							out.Add(obj{"ev": "nil", "vis": depth})
 							depth--
-							out.Add(obj{"ev": "nil"})
 							return false
 						}
 						lg.k++
 						id := ids[n]
 						order = append(order, id)
 						keep := rule.Keep(lg.k, n, depth)
-						out.Add(obj{"ev": "visit", "n": id, "keep": keep})
+						out.Add(obj{"ev": "visit", "n": id, "keep": keep, "vis": depth})
 						if keep {
 							depth++
 						}
